@@ -66,8 +66,12 @@ impl DiagnosticItem {
     ///
     /// The file ids are random and several diagnostics can share a range, so
     /// sorting by id and range alone gives a different order in every run.
+    ///
+    /// The same problem can be found more than once (by two lints, or on two
+    /// nodes that come from one token): a diagnostic that agrees with its
+    /// predecessor in everything that is shown is dropped.
     pub fn sort_for_display<T: crate::reader::FileReader>(
-        items: &mut [DiagnosticItem],
+        items: &mut Vec<DiagnosticItem>,
         reader: &T,
     ) {
         items.sort_by_cached_key(|item| {
@@ -78,6 +82,25 @@ impl DiagnosticItem {
                 item.description.clone(),
             )
         });
+        items.dedup_by(|a, b| a.same_report(b));
+    }
+
+    /// Do two diagnostics say the same thing about the same place?
+    fn same_report(&self, other: &Self) -> bool {
+        let related = |item: &Self| {
+            item.related.as_ref().map(|list| {
+                list.iter()
+                    .map(|r| (r.file, r.range.clone(), r.description.clone()))
+                    .collect::<Vec<_>>()
+            })
+        };
+        self.file == other.file
+            && self.range == other.range
+            && self.title == other.title
+            && self.description == other.description
+            && self.long_description == other.long_description
+            && std::mem::discriminant(&self.level) == std::mem::discriminant(&other.level)
+            && related(self) == related(other)
     }
 }
 
